@@ -432,6 +432,8 @@ def static_tags(stmts) -> set:
             if c[0] == "bin" and c[1] in lang.CMP_OPS and is_bundle(c[2]):
                 if c[3][0] != "lit":
                     tags.add("bundle-filter-scalar")        # filter with a signal scalar
+                    if c[3][0] == "var":
+                        gated.update(roots(c[3]))           # its scalar is locked to green as well
                 for r in roots(c[2]):
                     other_use[r] = other_use.get(r, 0) + 1
             elif is_bundle(v):
@@ -440,6 +442,10 @@ def static_tags(stmts) -> set:
                 for side in (c[2], c[3]) if c[0] == "bin" else (c,):
                     if side[0] == "var" and side[1] in sig_types:
                         ctypes.add(sig_types[side[1]])
+                    if side[0] == "var" and side[1] in decl:
+                        # the condition signal must arrive on red; elsewhere (scalar operand of a
+                        # bundle operation) the same source is locked to green
+                        other_use[side[1]] = other_use.get(side[1], 0) + 1
                 vt = btypes.get(v[1], set()) if v[0] == "var" else set()
                 if ctypes & vt:
                     tags.add("bundle-gate-cond-type")       # condition signal on a member's type
